@@ -388,6 +388,11 @@ func (cr *ChunkReader) parseChunkHeaderBytes(header []byte, l *int) (int64, stri
 	if err != nil {
 		return cr.handleRdrErr(err, header)
 	}
+	// a chunk without signature value can not be verified (and an empty
+	// value reads as "no check pending" further on)
+	if sig == "" {
+		return 0, "", 0, errInvalidChunkFormat
+	}
 
 	// read and parse the final chunk trailer and checksum
 	if chunkSize == 0 {
